@@ -8,6 +8,7 @@ after peeking two items; NativeCodeGenerator's output hooks are balanced (pre wr
 finalize call exactly when post closes it) and its constants are only folded when their repr
 is safe; NativeTemplate.render / render_async use the native concat and keep the async
 dispatch; the environment class wires code generator, concat and template class together.
+Also: Macro._invoke and Macro._async_invoke wrap the macro's value identically.  
 Not decided: literal_eval's value for every text.
 """
 
